@@ -67,6 +67,9 @@ func ruleC18(r *Report) {
 	r.Rule("C18.nil", "no dereference of an absent Issuer or a rootless document on the logout path", 1)
 	r.Rule("C18.roots", "the signature validator the logout path relies on trusts only roots derived from SP configuration (shared with C01.roots: signing-use key descriptors, the fingerprint-matched certificate, the pinned certificate)", 3)
 	safely(r, func() { checkRootsAs(r, &spModel{P: p, Sc: sc}, sr, "C18.roots") })
+	// freshness is judged on the instant the text denotes: the parse obligations of C15.ms, borrowed
+	r.Rule("C18.instants", "IssueInstant is read as the instant its text denotes: every parse arm of RelaxedTime stores Round(Millisecond) of what time.Parse returned, nothing else (C15.ms, borrowed) — a zone offset that is dropped or re-labelled shifts the freshness window", 3)
+	r.borrow("C15.ms", "C18.instants", func() { checkRelaxedTime(r, p) })
 
 	opaque := map[*ssa.Function]bool{}
 	for _, v := range sr.Validators {
